@@ -3,6 +3,8 @@ package validator
 import (
 	"github.com/aml-org/amf-custom-validator/internal/types"
 	"github.com/piprate/json-gold/ld"
+	"regexp"
+	"strings"
 )
 
 func Normalize(json any) any {
@@ -90,7 +92,7 @@ func addLexicalEntryFrom(node, nodeIndex, lexicalIndex *types.ObjectMap, locInde
 	*/
 	if _, ok := (*nodeIndex)[id]; ok {
 		(*lexicalIndex)[id] = types.ObjectMap{
-			"range": value,
+			"range": canonicalNumbers(value),
 			"uri":   locIndex.Location(id),
 		}
 	}
@@ -149,4 +151,22 @@ func (locIndex *LocationIndex) Location(id string) string {
 	} else {
 		return locIndex.DefaultLocation
 	}
+}
+
+var decimalRun = regexp.MustCompile(`\d+`)
+
+// canonicalNumbers rewrites the numbers of a lexical range without leading zeros: "[(007,0)-(18,8)]" records line 7,
+// but "007" is not a number the report can carry
+func canonicalNumbers(lexicalRange any) any {
+	text, ok := lexicalRange.(string)
+	if !ok {
+		return lexicalRange
+	}
+	return decimalRun.ReplaceAllStringFunc(text, func(digits string) string {
+		trimmed := strings.TrimLeft(digits, "0")
+		if trimmed == "" {
+			return "0"
+		}
+		return trimmed
+	})
 }
